@@ -66,7 +66,7 @@ Section Present.
   Lemma parts_blk_present : forall b cx n,
     blocks (map flat (parts_blk Pinned tmp b cx n)) (flat (stmts_of (lower_blk b cx n))).
   Proof.
-    induction b as [| e | x e b IH | bs els e b IH | e b IH]; intros cx n; simpl.
+    induction b as [| e | x e b IH | bs els e b IH | p bs e b IH | e b IH]; intros cx n; simpl.
     - exact I.
     - destruct (lower e cx n) as [[[s1 r1] n1] cx1] eqn:E1. unfold stmts_of; simpl.
       exists [], []. split; auto. now rewrite app_nil_r.
@@ -83,6 +83,12 @@ Section Present.
       destruct (lower_blk b (insert_all tmp cx1 bs n1) (n1 + length bs + length els)) as [[[s2 r2] n2] cx2] eqn:E2.
       unfold stmts_of in *; simpl in *. rewrite !flat_app. eexists [], _. split; [reflexivity|].
       apply blocks_prefix. apply blocks_prefix. auto.
+    - destruct (lower e cx n) as [[[s1 r1] n1] cx1] eqn:E1.
+      destruct (guard tmp p bs r1 n1) as [[gs gc] n2] eqn:G.
+      specialize (IH (insert_all tmp cx1 bs n1) n2).
+      destruct (lower_blk b (insert_all tmp cx1 bs n1) n2) as [[[s2 r2] n3] cx2] eqn:E2.
+      unfold stmts_of in *; simpl in *. rewrite !flat_app. eexists [], _. split; [reflexivity|].
+      apply blocks_prefix. auto.
     - destruct (lower e cx n) as [[[s1 r1] n1] cx1] eqn:E1.
       specialize (IH cx1 n1).
       destruct (lower_blk b cx1 n1) as [[[s2 r2] n2] cx2] eqn:E2.
@@ -168,5 +174,21 @@ Section Present.
     - (* EBlock *)
       pose proof (parts_blk_present b (push cx) n) as PB.
       destruct (lower_blk b (push cx) n) as [[[s1 r1] n1] cx1]. exact PB.
+    - (* EMatch *)
+      destruct (lower e cx n) as [[[se rs] n1] cx1].
+      destruct (Lower.lower_arms Pinned tmp cases rs (tmp n1) cx1 (S n1)) as [[[sa ra] n2] cx2].
+      unfold stmts_of; simpl. rewrite flat_app. eexists [], _. split; [reflexivity|exact I].
+    - (* EIfLet *)
+      destruct (lower e1 (push cx) n) as [[[se rs] n1] cx1].
+      destruct (guard tmp p bs rs n1) as [[gs gc] n2].
+      destruct (is_lit gc 1).
+      { destruct (lower e2 (insert_all tmp cx1 bs n1) n2) as [[[s1 r1] n3] cx3].
+        unfold stmts_of; simpl. rewrite flat_app. eexists [], _. split; [reflexivity|exact I]. }
+      destruct (is_lit gc 0).
+      { destruct (lower e3 (insert_all tmp cx1 bs n1) n2) as [[[s1 r1] n3] cx3].
+        unfold stmts_of; simpl. rewrite flat_app. eexists [], _. split; [reflexivity|exact I]. }
+      destruct (lower e2 (insert_all tmp cx1 bs n1) (S n2)) as [[[s1 r1] n3] cx3].
+      destruct (lower e3 cx3 n3) as [[[s2 r2] n4] cx4].
+      unfold stmts_of; simpl. rewrite flat_app. eexists [], _. split; [reflexivity|exact I].
   Qed.
 End Present.
